@@ -1500,7 +1500,7 @@ def f_denominator(c):
             else:
                 st = T(ELEM[el][2], S)
                 ens = [('value() reports the divisor', '%s == %s' % (st.lane('(%s).m.d' % RV, 0), t.lane(c.a(0), 0)))]
-            k = Contract('denom_ctor', ['C14'] if not vec else ['C15'], requires=req, ensures=ens, cxx='%s({0})' % ('avel::Denominator<%s>' % t.cxx()), flags=['div'])
+            k = Contract('denom_ctor', ['C14', 'C15'] if not vec else ['C15'], requires=req, ensures=ens, cxx='%s({0})' % ('avel::Denominator<%s>' % t.cxx()), flags=['div'])
             if fn['owner'] == 'Denom_i32':
                 # code-level contract (modulo-lemma L4): the constructor stores the signed Granlund-Montgomery parameters of d
                 d0 = c.a(0)
@@ -1549,7 +1549,7 @@ def f_denominator(c):
         cxx = 'div({0}, {1})' if c.name == 'div' else '({0} %s {1})' % c.name[8:]
         # scalar denominators: the property excludes n == MIN with d == -1 altogether (no result is specified there)
         req = ['spec_div_defined(%s, %s, %d, %d)' % (t.lane(n, 0), dl(0), t.bits, t.signed)] if t.W == 1 and not vec else []
-        k = Contract('denom_' + c.name, ['C14'] if not vec else ['C15'], requires=req, ensures=ens, cxx=cxx, flags=['div'])
+        k = Contract('denom_' + c.name, ['C14', 'C15'] if not vec else ['C15'], requires=req, ensures=ens, cxx=cxx, flags=['div'])
         ctor = find_ctor(c.db, c.P[1]['ctype'], [t.ct])
         if not ctor:
             return None
@@ -1597,7 +1597,7 @@ def f_denominator(c):
             ens.append(('%s lane %d' % (c.name, i), '!%s || %s == %s(%s, %s, %d)' % (g, t.lane(lhs, i), sp, ol, dl(i), t.bits)))
         ens.append(('returns the left operand', '%s == %s' % (RV, c.P[0]['name'])))
         req = ['spec_div_defined(%s, %s, %d, %d)' % (t.lane(lhs, 0), dl(0), t.bits, t.signed)] if t.W == 1 and not vec else []
-        k = Contract('denom_' + c.name, ['C14'] if not vec else ['C15'], requires=req, ensures=ens, assigns=['*%s' % c.P[0]['name']], cxx=None, flags=['div'])
+        k = Contract('denom_' + c.name, ['C14', 'C15'] if not vec else ['C15'], requires=req, ensures=ens, assigns=['*%s' % c.P[0]['name']], cxx=None, flags=['div'])
         ctor = find_ctor(c.db, c.P[1]['ctype'], [t.ct])
         if not ctor:
             return None
@@ -1627,7 +1627,7 @@ def f_denominator(c):
         else:
             st = T(ELEM[el][2], S)
             ens = [('value()', '%s == %s' % (t.lane(RV, 0), st.lane('(*this).m.d', 0)))]
-        return Contract('denom_value', ['C14'] if not vec else ['C15'], ensures=ens, cxx='{this}.value()')
+        return Contract('denom_value', ['C14', 'C15'] if not vec else ['C15'], ensures=ens, cxx='{this}.value()')
     return None
 
 
